@@ -55,6 +55,74 @@ def native_histories(run, n, limit, plus, iters):
     return None
 
 
+def native_twins(run, n, limit, plus, iters):
+    """Bounded: several minimisers alive in one process and used alternately (iterations, strategy queries, a loaded
+    copy), against the SAME history run alone in a fork()ed process: regret and strategy tables must be bit-identical
+    - nothing may leak between minimiser objects; and a minimiser loaded from a checkpoint, then driven through the
+    iterations the original had gone through after the checkpoint (with queries in between), ends in the same tables."""
+    import os
+    import pathlib
+    import pickle
+    import shutil
+    import tempfile
+    import numpy as np
+    from itertools import combinations
+    from pyvc.mode import native_pkg
+    P = native_pkg()
+    rg, co = P.mod("regret"), P.mod("coalitions")
+    v = RS.viable(n)
+    hist = [[co.Coalition(c) for c in combo] for combo in combinations(v, min(limit, len(v)))]
+    rng = np.random.default_rng(run.rng.randrange(1 << 30))
+    losses = [rng.random(len(hist)) * rng.choice([1.0, 10.0]) for _ in range(iters)]
+
+    def alone():
+        rm = rg.GameRegretMinimizer(n, limit, plus)
+        for L in losses:
+            rm.regret_min_iteration(L, hist)
+        return rm.cumulative_regret.copy(), rm.cumulative_strategy.copy(), rm.iteration
+
+    r, w = os.pipe()
+    pid = os.fork()
+    if pid == 0:
+        try:
+            os.close(r)
+            with os.fdopen(w, "wb") as f:
+                f.write(pickle.dumps(alone()))
+        finally:
+            os._exit(0)
+    os.close(w)
+    with os.fdopen(r, "rb") as f:
+        ref = pickle.loads(f.read())
+    os.waitpid(pid, 0)
+    a = rg.GameRegretMinimizer(n, limit, plus)
+    b = rg.GameRegretMinimizer(n, limit, not plus)
+    small = rg.GameRegretMinimizer(3, 1, plus)
+    d = tempfile.mkdtemp(prefix="c14t_")
+    try:
+        half = iters // 2
+        for t, L in enumerate(losses):
+            if t == half:
+                a.save(pathlib.Path(d))
+            b.regret_matching_strategy(0)
+            small.regret_matching_strategy(0)
+            a.regret_min_iteration(L, hist)
+            a.regret_matching_strategy(0)
+            b.regret_min_iteration(L[::-1].copy(), hist)
+            b.get_average_strategy([])
+        if not (np.array_equal(a.cumulative_regret, ref[0]) and np.array_equal(a.cumulative_strategy, ref[1]) and a.iteration == ref[2]):
+            return {"n": n, "limit": limit, "plus": plus, "what": "a minimiser used next to other minimisers differs from the same history run alone"}
+        a2 = rg.GameRegretMinimizer.load(pathlib.Path(d))
+        for L in losses[half:]:
+            b.regret_matching_strategy(0)
+            a2.regret_min_iteration(L, hist)
+            a.regret_matching_strategy(0)
+        if not (np.array_equal(a2.cumulative_regret, ref[0]) and np.array_equal(a2.cumulative_strategy, ref[1]) and a2.iteration == ref[2]):
+            return {"n": n, "limit": limit, "plus": plus, "what": "a loaded minimiser replaying the iterations after the checkpoint does not continue identically"}
+    finally:
+        shutil.rmtree(d, ignore_errors=True)
+    return None
+
+
 def main(run):
     pkg = RS.regret_package()
     run.pkg = pkg
@@ -77,6 +145,10 @@ def main(run):
             rm_probe = pkg.mod("regret").GameRegretMinimizer(n, l, plus)
             for node in range(rm_probe.number_of_regret_minimizers):
                 run.prove(f"strategies[n={n},limit={l},plus={plus},node={node}]", RS.sc_regret_strategies, dict(p, node=node), pkg=pkg)
+                if (n, l) in ((3, 2), (4, 1)) and node in (0, 1):
+                    # a second minimiser of the same shape (other variant, other state) is alive and answers first
+                    run.prove(f"strategies.two_minimisers[n={n},limit={l},plus={plus},node={node}]", RS.sc_regret_strategies,
+                              dict(p, node=node, other_first=True), pkg=pkg)
             # orthogonality is QF_NRA; beyond limit 2 neither solver decides it within 3 x 300 s (measured in the thorough
             # tier), so it is asked only where it is decided; the bounded layer checks it on float32 histories everywhere
             prove = run.prove_parallel if (n, l) == (4, 2) else run.prove
@@ -97,6 +169,17 @@ def main(run):
                 fails += 1
                 run._report_violation(f"native[n={n},limit={l},plus={plus}]/history", RS.sc_regret_iteration, {"n": n, "limit": l, "plus": plus},
                                       w, True, detail={"layer": "bounded", "witness": w})
+    for n, l in [(3, 2), (4, 1), (4, 2)] + ([] if quick else [(3, 3), (4, 3), (5, 1)]):
+        for plus in (False, True):
+            evals += 1
+            try:
+                w = native_twins(run, n, l, plus, 4 if quick else 10)
+            except Exception as e:
+                w = {"n": n, "limit": l, "plus": plus, "raised": f"{type(e).__name__}: {e}"}
+            if w:
+                fails += 1
+                run._report_violation(f"native.twins[n={n},limit={l},plus={plus}]/independent_of_other_minimisers", RS.sc_regret_iteration,
+                                      {"n": n, "limit": l, "plus": plus}, w, True, detail={"layer": "bounded", "witness": w})
     run.native_evals += evals
     run.native_distinct.update(("rm", j) for j in range(evals))
     run.bounded.append({"label": "real class, float32, random non-negative terminal vectors", "evaluations": evals, "failures": fails,
